@@ -202,6 +202,9 @@ bool op_valid(const Op& op) {
     if (op.kind == "fftn" || op.kind == "xcorr" || op.kind == "fftfilt") {
         return op.a.size() >= 3 && sz(0) && sz(1);
     }
+    if (op.kind == "sweep") {
+        return op.a.size() >= 2 && op.iarg(0) >= 0 && op.iarg(0) <= 3;
+    }
     if (op.kind == "czt") {
         return op.a.size() >= 4 && sz(0) && op.iarg(0) <= 4096 && sz(1) && op.iarg(1) <= 4096 && op.iarg(2) >= 0 && op.iarg(2) <= 3;
     }
@@ -245,6 +248,15 @@ std::vector<double> do_request(const Op& op) {
         append(out, dsplib::fft(cdata(uint32_t(op.iarg(2)), n), int(op.iarg(1))));
     } else if (op.kind == "xcorr") {
         append(out, dsplib::xcorr(rdata(uint32_t(op.iarg(2)), n), rdata(uint32_t(op.iarg(2)) + 1, int(op.iarg(1)))));
+    } else if (op.kind == "sweep") {
+        // one request that walks through a whole family of lengths (every table / pool the planner keeps per thread gets filled)
+        static const int fam[4][12] = {{3, 5, 7, 11, 13, 17, 19, 23, 29, 31, 37, 41}, {43, 47, 53, 59, 61, 67, 71, 73, 79, 83, 89, 97},
+                                       {16, 32, 64, 128, 256, 512, 1024, 2048, 6, 12, 24, 48}, {9, 15, 21, 25, 27, 33, 35, 45, 49, 55, 63, 65}};
+        for (int q : fam[op.iarg(0)]) {
+            const auto y = dsplib::fft(cdata(uint32_t(op.iarg(1)), q));
+            out.push_back(y[0].re);
+            out.push_back(y[q - 1].im);
+        }
     } else if (op.kind == "czt") {
         // czt(x, m, w, a): w on the unit circle; a = 1 or a point off the default (anything keyed without `a` would alias)
         const int m = int(op.iarg(1));
@@ -333,6 +345,9 @@ Plan gen(uint64_t seed, const std::string& tier) {
             } else {
                 op.a = {double(std::max(n, 2)), ds};
             }
+        } else if (c == 13 && r.chance(0.35)) {
+            op.kind = "sweep";
+            op.a = {double(r.below(4)), ds};
         } else if (c == 14 && r.chance(0.5)) {
             // the m = n, w = exp(-2 pi i / n) form is the one the prime-length FFT plans use internally
             op.kind = "czt";
